@@ -2,7 +2,7 @@ use harper_core::Lrc;
 use harper_core::Token;
 use harper_core::parsers::{Markdown, MarkdownOptions, Parser};
 
-use super::without_initiators;
+use super::{Unit, without_initiators};
 
 #[derive(Clone)]
 pub struct Go {
@@ -21,25 +21,29 @@ impl Go {
 
 impl Parser for Go {
     fn parse(&self, source: &[char]) -> Vec<Token> {
-        let mut actual = without_initiators(source);
-        let mut actual_source = actual.get_content(source);
+        let actual = without_initiators(source);
+        let actual_source = actual.get_content(source);
+
+        // A compiler directive (`//go:build linux`) that opens the comment is not prose: skip
+        // its line.
+        let mut start = 0;
 
         if matches!(actual_source, ['g', 'o', ':', ..]) {
-            // Skip the directive: continue at the end of its line. Both the line end and the
-            // remaining content are located in `actual_source`, which begins at `actual.start`.
-            let Some(terminator) = actual_source.iter().position(|c| *c == '\n') else {
+            let Some(terminator) = source.iter().position(|c| *c == '\n') else {
                 return Vec::new();
             };
 
-            actual.start += terminator;
-            actual_source = &actual_source[terminator..];
+            start = terminator + 1;
         }
 
-        let mut new_tokens = self.inner.parse(actual_source);
+        // The rest is an ordinary comment. It is parsed line by line so that the leaders of the
+        // continuation lines are stripped as well; handed over as one block, an indented `//`
+        // line after a blank line would be taken for a Markdown code block and never be checked.
+        let mut new_tokens = Unit::new(self.inner.clone()).parse(&source[start..]);
 
         new_tokens
             .iter_mut()
-            .for_each(|t| t.span.push_by(actual.start));
+            .for_each(|t| t.span.push_by(start));
 
         new_tokens
     }
